@@ -1410,6 +1410,103 @@ async fn content_length_spelling_family(seed: u64, n: usize) -> (Evidence, Vec<V
 	(ev, violations)
 }
 
+/// A request body whose stream FAILS (the peer went away before the announced length, a broken final chunk, a reset
+/// HTTP/2 stream) is not a received request: whatever prefix arrived, wherever the fault sits between the frames and
+/// whichever framing header was sent, no handler may run for it and the answer is never a JSON-RPC result. The same
+/// bytes ending normally are the reference (accepted, handler ran once).
+async fn broken_body_family(seed: u64, n: usize) -> (Evidence, Vec<Violation>) {
+	let mut ev = Evidence::new("");
+	let mut violations = Vec::new();
+	let mut r = Rng::new(seed);
+	let log: Log = Arc::new(Mutex::new(Vec::new()));
+	let (stop_handle, _server_handle) = jsonrpsee_server::stop_channel();
+	let mut svc = jsonrpsee_server::Server::builder().to_service_builder().build(module(log.clone()), stop_handle);
+	for i in 0..n {
+		let nonce = format!("bb{seed:x}-{i}");
+		let method = *r.pick(&["e", "echo", "a", "echo_async", "fail"]);
+		let one = format!("{{\"jsonrpc\":\"2.0\",\"id\":{},\"method\":\"{method}\",\"params\":[\"{nonce}\",\"{}\"]}}", r.below(1000), "x".repeat(r.usize(120)));
+		let body = match r.below(4) {
+			0 => format!("[{one},{one}]"),
+			1 => format!("{}{one}{}", " ".repeat(r.usize(3)), "\n".repeat(r.usize(3))),
+			_ => one.clone(),
+		}
+		.into_bytes();
+		// how much of the text arrived before the fault, and in how many frames
+		let (arrived, where_) = match r.below(6) {
+			0 => (0, "before-any-byte"),
+			1 | 2 => (1 + r.usize(body.len() - 1), "inside-the-text"),
+			_ => (body.len(), "after-the-whole-text"),
+		};
+		let k = r.usize(4);
+		let mut cuts = seeded_cuts(&mut r, arrived, k);
+		cuts.retain(|c| *c < arrived);
+		let mut frames: Vec<Result<Frame<Bytes>, std::io::Error>> = Vec::new();
+		let mut at = 0;
+		for c in cuts.iter().copied().chain(std::iter::once(arrived)) {
+			if c > at || r.chance(1, 4) {
+				frames.push(Ok(Frame::data(Bytes::copy_from_slice(&body[at..c]))));
+			}
+			at = c.max(at);
+		}
+		if r.chance(1, 4) {
+			frames.push(Ok(Frame::data(Bytes::new())));
+		}
+		let kind = *r.pick(&[std::io::ErrorKind::ConnectionReset, std::io::ErrorKind::UnexpectedEof, std::io::ErrorKind::InvalidData, std::io::ErrorKind::Other]);
+		frames.push(Err(std::io::Error::new(kind, "the body stream failed here")));
+		let framing = *r.pick(&["no-content-length", "content-length-of-whole-text", "content-length-larger", "content-length-of-arrived"]);
+		let mut b = http::Request::builder().method("POST").uri("http://localhost/").header("host", "localhost").header("content-type", "application/json");
+		match framing {
+			"content-length-of-whole-text" => b = b.header("content-length", body.len()),
+			"content-length-larger" => b = b.header("content-length", body.len() + 1 + r.usize(64)),
+			"content-length-of-arrived" => b = b.header("content-length", arrived),
+			_ => {}
+		}
+		let n_frames = frames.len() - 1;
+		let req = b.body(StreamBody::new(futures_util::stream::iter(frames))).expect("request");
+		log.lock().unwrap().clear();
+		let reply = http_call(&mut svc, req).await;
+		let ran: Vec<(String, String)> = std::mem::take(&mut *log.lock().unwrap());
+		ev.eval();
+		ev.count("broken_body_requests", 1);
+		ev.count(&format!("broken_body_{where_}_status_{}", reply.status), 1);
+		ev.count(&format!("broken_body_framing_{framing}"), 1);
+		let text = lossy(&reply.body);
+		let answered_as_rpc = reply.status == 200 && (text.contains("\"result\"") || text.contains(&nonce) || text.contains("-32050"));
+		let wit = json!({"family": "broken-body", "seed": seed, "index": i, "body": lossy(&body), "arrived_bytes": arrived, "frames_before_fault": n_frames, "framing": framing, "error_kind": format!("{kind:?}"), "status": reply.status, "reply": text, "handlers": ran.iter().map(|x| x.0.clone()).collect::<Vec<_>>()});
+		if !ran.is_empty() {
+			violations.push(Violation::new(
+				format!("handler-ran-for-body-that-failed/{where_}"),
+				format!("the body stream failed after {arrived} of {} bytes ({n_frames} frames, {framing}), yet handler(s) {:?} ran; answer {} {:?}", body.len(), ran.iter().map(|x| x.0.as_str()).collect::<Vec<_>>(), reply.status, text),
+				wit,
+			));
+		} else if answered_as_rpc {
+			violations.push(Violation::new(
+				format!("rpc-answer-for-body-that-failed/{where_}"),
+				format!("the body stream failed after {arrived} of {} bytes, yet the answer is {} {:?}", body.len(), reply.status, text),
+				wit,
+			));
+		} else {
+			ev.nontrivial(&("broken-body", seed, i));
+		}
+		// the reference: the same bytes, ending normally, are accepted
+		if where_ == "after-the-whole-text" && i % 4 == 0 {
+			let req = http::Request::builder().method("POST").uri("http://localhost/").header("host", "localhost").header("content-type", "application/json").body(StreamBody::new(futures_util::stream::iter(vec![Ok::<_, std::io::Error>(Frame::data(Bytes::from(body.clone())))]))).expect("request");
+			log.lock().unwrap().clear();
+			let reply = http_call(&mut svc, req).await;
+			let ran = std::mem::take(&mut *log.lock().unwrap());
+			ev.count("broken_body_references", 1);
+			if reply.status != 200 || ran.is_empty() {
+				violations.push(Violation::new(
+					"broken-body-reference-refused",
+					format!("the same {} bytes ending normally were answered {} {:?} (handlers {})", body.len(), reply.status, lossy(&reply.body), ran.len()),
+					json!({"family": "broken-body", "seed": seed, "index": i, "body": lossy(&body)}),
+				));
+			}
+		}
+	}
+	(ev, violations)
+}
+
 const DEFAULT_LIMIT: u32 = 10 * 1024 * 1024;
 const SMALL_LIMIT: u32 = 300;
 
@@ -1544,6 +1641,19 @@ fn main() {
 		let w: Value = serde_json::from_str(&std::fs::read_to_string(path).expect("replay file")).expect("json");
 		let wit = &w["witness"];
 		let limit = wit["max_request_body_size"].as_u64().unwrap_or(DEFAULT_LIMIT as u64) as u32;
+		if let Some(fam) = wit["family"].as_str().filter(|f| *f != "proxy-get-layer") {
+			let (seed, upto) = (wit["seed"].as_u64().unwrap_or(0), wit["index"].as_u64().unwrap_or(0) as usize + 1);
+			let (e, v) = block_on_virtual(async {
+				if fam == "broken-body" { broken_body_family(seed, upto).await } else { content_length_spelling_family(seed, upto).await }
+			});
+			for x in &v {
+				println!("replay violation: {} — {}", x.signature, x.detail);
+			}
+			ev.merge(e);
+			ev.nontrivial(&"family-replay-a");
+			ev.nontrivial(&"family-replay-b");
+			finish(&ctx, ev, v, None);
+		}
 		let x = block_on_virtual(async {
 			let mut x = Exec::new(limit);
 			if let Some(g) = wit.get("gate") {
@@ -1607,6 +1717,15 @@ fn main() {
 		let seed = ctx.seed;
 		let n = ctx.tier.pick(50usize, 2_500);
 		let res = run_parallel((0..16u64).collect(), |_, i| block_on_virtual(content_length_spelling_family(Rng::fork(seed ^ 0xc1e, i).next_u64(), n)));
+		for (e, v) in res {
+			ev.merge(e);
+			violations.extend(v);
+		}
+	}
+	{
+		let seed = ctx.seed;
+		let n = ctx.tier.pick(60usize, 3_000);
+		let res = run_parallel((0..16u64).collect(), |_, i| block_on_virtual(broken_body_family(Rng::fork(seed ^ 0xb0d, i).next_u64(), n)));
 		for (e, v) in res {
 			ev.merge(e);
 			violations.extend(v);
